@@ -19,7 +19,7 @@
 (*   ScanBatches, IterFileBatches transaction.py:1066-1113, 1115-1161      *)
 (*   IterRecords                 transaction.py:1163-1186                  *)
 (* Theorems checked by TLC (MC_FilterSel):                                 *)
-(*   EngineMatchesReference, ParserConforms, StatsSoundArmsNeutral,        *)
+(*   EngineMatchesReference, ParserConforms, StatsArms,                    *)
 (*   ApiConforms (holds on the repaired model, fails on the code as it is) *)
 (*   ApiConformsModuloKnown (the code as it is deviates ONLY in the two    *)
 (*   characterised defect classes).                                        *)
@@ -28,7 +28,11 @@
 (*   StatsPushdown = TRUE   the non-verify path of _read_datafile_table    *)
 (*       passes the predicate to pq.read_table(filters=...), whose         *)
 (*       row-group pruning trusts parquet min/max statistics; these skip   *)
-(*       NaN, so a row group {v, NaN} is dropped for  != v  /  not_in{v}.  *)
+(*       NaN, so a row group {v, NaN} is dropped for  != v  /  not_in{v};  *)
+(*       and a float row group whose only value is zero has statistics     *)
+(*       (-0.0, +0.0), from which pyarrow concludes "x == -0.0" and folds  *)
+(*       is_in(-0.0, S) - a bitwise test - to false: the rows 0.0 are      *)
+(*       dropped for  in S  although 0.0 is in S.                          *)
 (*   ValidateFirst = FALSE  _scan_table returns before parsing the filter  *)
 (*       when the table has no data files, scan_batches builds the         *)
 (*       expression only after the "no files left" return, and the parser  *)
@@ -256,8 +260,12 @@ RGStats(file, cc) == LET b == Bounds(ColVals(file, cc)) IN IF b.has /\ IsNum(b.l
 \* pyarrow's dataset scanner simplifies the predicate against the guarantee lo <= x <= hi derived
 \* from the statistics and skips the row group when the result is "false" (platform behaviour,
 \* observed with pyarrow 24; re-checked by the binding).  The != and not_in arms are the ones
-\* that are blind to NaN; the other arms are result-neutral (StatsSoundArmsNeutral).
-StatsRefutes(e, st) ==
+\* that are blind to NaN, the `in` arm mishandles the signed-zero statistics of an all-zero float row
+\* group; every other refutation is result-neutral (StatsArmsAt).
+\* ZeroPt: the abstract point that is concretised as 0.0 in float/double columns (harness/values.py).
+ZeroPt == 2
+SignedZeroStats(st, isFloat) == isFloat /\ st.lo = ZeroPt /\ st.hi = ZeroPt     \* written as min = -0.0, max = +0.0
+StatsRefutes(e, st, isFloat) ==
   st.has /\
   CASE e.op \in CmpOps /\ e.lit = NULL -> FALSE
     [] e.op = "=="  -> e.lit < st.lo \/ e.lit > st.hi
@@ -266,24 +274,26 @@ StatsRefutes(e, st) ==
     [] e.op = "<="  -> st.lo > e.lit
     [] e.op = ">"   -> st.hi <= e.lit
     [] e.op = ">="  -> st.hi < e.lit
-    [] e.op = "in"  -> \A x \in e.lit \ {NULL} : x < st.lo \/ x > st.hi
-    [] e.op = "not_in" -> st.lo = st.hi /\ st.lo \in e.lit
+    [] e.op = "in"  -> IF SignedZeroStats(st, isFloat) THEN TRUE          \* guarantee x == -0.0; is_in(-0.0, S) is bitwise: false
+                       ELSE \A x \in e.lit \ {NULL} : x < st.lo \/ x > st.hi
+    [] e.op = "not_in" -> st.lo = st.hi /\ st.lo \in e.lit /\ ~SignedZeroStats(st, isFloat)
     [] OTHER -> FALSE
 NaNBlindArm(e) == e.op \in {"!=", "not_in"}
-RowGroupSkipped(file, exprs) ==
-  StatsPushdown /\ \E i \in 1..Len(exprs) : StatsRefutes(exprs[i], RGStats(file, exprs[i].col))
+Refuted(file, e, floatCols) == StatsRefutes(e, RGStats(file, e.col), e.col \in floatCols)
+RowGroupSkipped(file, exprs, floatCols) ==
+  StatsPushdown /\ \E i \in 1..Len(exprs) : Refuted(file, exprs[i], floatCols)
 
 \* -- _read_datafile_table, non-verify path (937-943): predicate pushdown into pq.read_table.
-ReadNoVerify(files, f, exprs, proj) ==
+ReadNoVerify(files, f, exprs, proj, floatCols) ==
   IF ~ProjPresent(proj, Range(AllCols)) THEN Raise
   ELSE IF exprs # <<>> THEN                                                         \* 939-942 read_table(columns=, filters=)
       IF ~ColsPresent(exprs, Range(AllCols)) THEN Raise
-      ELSE IF RowGroupSkipped(files[f], exprs) THEN Ok(<<>>)
+      ELSE IF RowGroupSkipped(files[f], exprs, floatCols) THEN Ok(<<>>)
       ELSE LET keep(r) == EngineKeeps(files[f][r], exprs) IN FileOut(files, f, keep, proj)
   ELSE LET keep(r) == TRUE IN FileOut(files, f, keep, proj)                         \* 943
 
-ReadOne(files, f, exprs, proj, verify) ==
-  IF verify THEN ReadVerify(files, f, exprs, proj) ELSE ReadNoVerify(files, f, exprs, proj)   \* 919 (every file has a checksum)
+ReadOne(files, f, exprs, proj, verify, floatCols) ==
+  IF verify THEN ReadVerify(files, f, exprs, proj) ELSE ReadNoVerify(files, f, exprs, proj, floatCols)   \* 919 (every file has a checksum)
 
 \* -- prune_files_by_bounds as called at 977-980 / 1100-1103: Filter!MayMatch (the != float guard is in
 \*    the code: Guard = TRUE).  A None literal makes the comparison raise TypeError -> "cannot prune".
@@ -307,7 +317,7 @@ ScanTable(files, flt, proj, verify, floatCols) ==
   ELSE LET kept == KeptFiles(files, flt.exprs, floatCols) IN                        \* 977-980
        IF kept = <<>> THEN Ok(<<>>)                                                 \* 981-982
        ELSE IF flt.stage = "exec" THEN Raise                                        \* 986-994 read_one evaluates the expression
-       ELSE Collect([i \in 1..Len(kept) |-> ReadOne(files, kept[i], flt.exprs, proj, verify)])   \* 996 concat_tables
+       ELSE Collect([i \in 1..Len(kept) |-> ReadOne(files, kept[i], flt.exprs, proj, verify, floatCols)])   \* 996 concat_tables
 
 \* -- _iter_file_batches 1115-1161, one file: batches of bs rows, each filtered then projected.
 Min(x, y) == IF x <= y THEN x ELSE y
@@ -357,18 +367,17 @@ ApiConformsAt(files, refMalformed, refExprs, flt, proj, floatCols) ==
   LET exp == Expected(files, refMalformed, refExprs, proj) IN
   \A api \in Apis : Outcome(api, files, flt, proj, floatCols) = exp
 
-\* Characterisation of the two defects of the code as it is.
-\* D1  rows lost ONLY on scan(verify_checksums=False), ONLY NaN rows of row groups that the
-\*     statistics refute through a NaN-blind arm; nothing extra is ever returned.
-NaNRowsOfSkipped(files, exprs) ==
-  {<<f, r>> \in Sel(files, exprs) :
-      /\ \E i \in 1..Len(exprs) : NaNBlindArm(exprs[i]) /\ files[f][r][exprs[i].col] = NAN
-                                   /\ StatsRefutes(exprs[i], RGStats(files[f], exprs[i].col))}
+\* Characterisation of the defects of the code as it is.
+\* D1  rows lost ONLY on scan(verify_checksums=False), ONLY rows of row groups that the statistics
+\*     refute (StatsArms says which rows these can be: NaN rows under != / not_in, and zero rows
+\*     of an all-zero float row group under in); nothing extra is ever returned.
+LostToStats(files, exprs, floatCols) ==
+  {<<f, r>> \in Sel(files, exprs) : \E i \in 1..Len(exprs) : Refuted(files[f], exprs[i], floatCols)}
 Ids(o) == {<<o.out[i].f, o.out[i].r>> : i \in 1..Len(o.out)}
-DefectD1(api, got, exp, files, exprs) ==
+DefectD1(api, got, exp, files, exprs, floatCols) ==
   /\ StatsPushdown /\ api = "scan_noverify" /\ ~got.raise /\ ~exp.raise
   /\ Ids(got) \subseteq Ids(exp)
-  /\ (Ids(exp) \ Ids(got)) # {} /\ (Ids(exp) \ Ids(got)) \subseteq NaNRowsOfSkipped(files, exprs)
+  /\ (Ids(exp) \ Ids(got)) # {} /\ (Ids(exp) \ Ids(got)) \subseteq LostToStats(files, exprs, floatCols)
   /\ \A i \in 1..Len(got.out) : \E j \in 1..Len(exp.out) : got.out[i] = exp.out[j]
 \* D2  a malformed filter is accepted (empty answer, never rows) only when no file is evaluated.
 DefectD2(got, exp) == ~ValidateFirst /\ exp.raise /\ ~got.raise /\ got.out = <<>>
@@ -377,15 +386,16 @@ ApiConformsModuloKnownAt(files, refMalformed, refExprs, flt, proj, floatCols) ==
   LET exp == Expected(files, refMalformed, refExprs, proj) IN
   \A api \in Apis :
      LET got == Outcome(api, files, flt, proj, floatCols)
-     IN got = exp \/ DefectD1(api, got, exp, files, refExprs) \/ DefectD2(got, exp)
+     IN got = exp \/ DefectD1(api, got, exp, files, refExprs, floatCols) \/ DefectD2(got, exp)
 
-\* The statistics arms other than != / not_in never change a result: whenever they refute an
-\* expression, no row of the file satisfies it.
-StatsSoundArmsNeutralAt(file, e) ==
-  (~NaNBlindArm(e) /\ StatsRefutes(e, RGStats(file, e.col)))
-     => \A r \in 1..Len(file) : RefSat3(file[r][e.col], e.op, e.lit) # "T"
-\* ... and the NaN-blind arms are wrong only about NaN rows.
-StatsNaNArmsOnlyNaNAt(file, e) ==
-  (NaNBlindArm(e) /\ StatsRefutes(e, RGStats(file, e.col)))
-     => \A r \in 1..Len(file) : RefSat3(file[r][e.col], e.op, e.lit) = "T" => file[r][e.col] = NAN
+\* What the statistics arms can get wrong: whenever an expression is refuted for a file, a row of that
+\* file satisfies it only if (a) the arm is != / not_in and the row's value is NaN, or (b) the arm is
+\* the signed-zero `in` arm and the row's value is the zero of an all-zero float row group.
+\* Every other refutation is result-neutral.
+StatsArmsAt(file, e, floatCols) ==
+  Refuted(file, e, floatCols) =>
+     \A r \in 1..Len(file) :
+        RefSat3(file[r][e.col], e.op, e.lit) = "T" =>
+           \/ NaNBlindArm(e) /\ file[r][e.col] = NAN
+           \/ e.op = "in" /\ SignedZeroStats(RGStats(file, e.col), e.col \in floatCols) /\ file[r][e.col] = ZeroPt
 =============================================================================
